@@ -33,7 +33,7 @@ STUB = ["wall clock", "uuid source", "file system under FileAdapter", "SdSimulat
 ASSUMPTIONS = ["automatic OPTIONS answers are Flask's own and excluded", "credential shapes that contain the token as a whole word are not sent (no verdict)",
                "states are sampled, the intruder product per state is complete"]
 FAULT_KINDS = ["unauthorised_request"]
-PROBES = ["startup_failed_nothing_served", "authorised_admin_requests_before_burst", "authorised_reads_before_burst", "second_server_in_process", "intruder_while_authorised_request_in_flight", "authorised_request_failed_before_burst", "state_live_session", "state_locked_session", "state_expired_externalised", "state_no_instances",
+PROBES = ["requests_inside_a_pushed_app_context", "startup_failed_nothing_served", "authorised_admin_requests_before_burst", "authorised_reads_before_burst", "second_server_in_process", "intruder_while_authorised_request_in_flight", "authorised_request_failed_before_burst", "state_live_session", "state_locked_session", "state_expired_externalised", "state_no_instances",
           "authorised_twin_request_changes_state", "malformed_header_500"]
 EXHAUSTIVE = {"quick": False, "thorough": False}
 
@@ -147,6 +147,8 @@ def generate(spec):
     token = rng.choice([TOKEN, TOKEN, "v2.prod.7f3a9c", "a+b(c)*d", "t0k/en?x=1"])
     broken = bool(adapter) and rng.random() < 0.12
     return {"property": PROPERTY, "config": {"adapter": adapter, "token": token, "state_dir_missing": broken,
+                                             # the whole history is driven inside one pushed application context (a script or a fixture does that)
+                                             "app_context": rng.random() < 0.2,
                                              "model": {"template": "T1", "start": 1.0, "stop": 10.0, "dt": 1.0,
                                                        "managers": {"smA": {"base": {}, "alt": {"constants": {"constant": 2.0}}}}}},
             "ops": ops2, "bursts": bursts[-3:], "limit": None}
@@ -424,7 +426,8 @@ def _history(case, with_bursts, log, res):
     cfg = case["config"]
     responses = []
     held = []
-    with ServerWorld({"model": cfg["model"], "adapter": cfg.get("adapter"), "token": cfg["token"], "threads": "auto"}, log, res) as w:
+    with ServerWorld({"model": cfg["model"], "adapter": cfg.get("adapter"), "token": cfg["token"], "threads": "auto",
+                      "app_context": bool(cfg.get("app_context"))}, log, res) as w:
         if cfg.get("state_dir_missing"):
             # the state directory does not exist: a server that cannot read its external state does not come up at all -
             # or it comes up and still wants the token
